@@ -153,6 +153,8 @@ def panic_audit(ctx, p):
                 nover += 1
                 continue
             r = lib.panic_site_autodischarge(b, s)
+            if r is None and 'try_io!' in s['mx'] and re.search(r'Result::<usize, usize>::unwrap$', s['what']):
+                r = 'fault-injection counter of the instrumentation feature: AtomicUsize::fetch_update with a closure that always returns Some cannot fail'
             if r:
                 nauto += 1
                 continue
